@@ -46,11 +46,11 @@ theorem same_bytes (t t' : Ty) (v : Val) (he : ext t t' = true) (hv : wts t v = 
     a value of `t`) decodes in both configurations, to the value and to its embedding (the same
     members, the new ones absent). -/
 theorem same_values (t t' : Ty) (v : Val) (r : Input) (he : ext t t' = true) (hv : wts t v = true)
-    (hwf : wf t = true) (hwf' : wf t' = true) (hw : wt t v = true) (hw' : wt t' (embed t t' v) = true) :
+    (hwf : wf t = true) (hwf' : wf t' = true) (hw : wt t v = true) :
     decode t (encode t v ++ r) = .ok (v, r) ∧ decode t' (encode t v ++ r) = .ok (embed t t' v, r) := by
   refine ⟨rt t hwf v r hw, ?_⟩
   rw [ext_encode t t' v he hv]
-  exact rt t' hwf' _ r hw'
+  exact rt t' hwf' _ r (ext_wt t t' v he hw)
 
 /-- for *any* two configurations the statement goes through their intersection -/
 theorem meet_le (c c' : Cfg) : (Cfg.mk (c.g && c'.g) (c.l && c'.l) (c.t && c'.t)).le c = true ∧
